@@ -245,6 +245,12 @@ public:
 			case pass_quote_exptected:
 				if(c < 0 || c >=127)
 					return error_observerd;
+				if(c=='\r') {
+					// a backslash does not escape the end of the line
+					line_end_from_=1;
+					state_=lf_exptected;
+					break;
+				}
 				state_=quote_expected;
 				break;
 			case closing_bracket_expected:
@@ -266,6 +272,11 @@ public:
 			case pass_closing_bracket_expected:
 				if(c < 0 || c >=127)
 					return error_observerd;
+				if(c=='\r') {
+					line_end_from_=2;
+					state_=lf_exptected;
+					break;
+				}
 				state_=closing_bracket_expected;
 				break;
 			}
